@@ -620,6 +620,47 @@ typedef struct { int fs, ch, bw, ms, br, cbr, cvbr, cx, sig, fec, seed, f0, glid
 static void wc_cfg_arr(const wc_cfg *c, int *a) { a[0]=c->fs; a[1]=c->ch; a[2]=c->bw; a[3]=c->ms; a[4]=c->br; a[5]=c->cbr; a[6]=c->cvbr; a[7]=c->cx; a[8]=c->sig; a[9]=c->fec; a[10]=c->seed; a[11]=c->f0; a[12]=c->glide; }
 static void wc_cfg_from(const int *a, wc_cfg *c) { c->fs=a[0]; c->ch=a[1]; c->bw=a[2]; c->ms=a[3]; c->br=a[4]; c->cbr=a[5]; c->cvbr=a[6]; c->cx=a[7]; c->sig=a[8]; c->fec=a[9]; c->seed=a[10]; c->f0=a[11]; c->glide=a[12]; }
 
+
+/* link-time interposition (-Wl,--wrap): the prediction filters each side derives from the NLSFs of a frame - the encoder's
+   own copy (silk_process_NLSFs: second half from the quantised vector, first half from the interpolated one) and the
+   decoder's (silk_decode_parameters).  Kept per state object; `fresh` is cleared before every packet. */
+void __real_silk_process_NLSFs(silk_encoder_state *psEncC, opus_int16 PredCoef_Q12[2][MAX_LPC_ORDER], opus_int16 pNLSF_Q15[MAX_LPC_ORDER], const opus_int16 prev_NLSFq_Q15[MAX_LPC_ORDER]);
+void __real_silk_decode_parameters(silk_decoder_state *psDec, silk_decoder_control *psDecCtrl, opus_int condCoding);
+typedef struct { const void *obj; int fresh, order, ip; int a[2][MAX_LPC_ORDER]; } pc_rec;
+static pc_rec g_pc[8];
+static pc_rec *pc_slot(const void *obj, int make)
+{
+   int i;
+   for (i = 0; i < 8; i++) if (g_pc[i].obj == obj) return &g_pc[i];
+   if (!make) return NULL;
+   for (i = 0; i < 8; i++) if (!g_pc[i].obj) { g_pc[i].obj = obj; return &g_pc[i]; }
+   return NULL;
+}
+static void pc_clear(void) { memset(g_pc, 0, sizeof g_pc); }
+static void pc_stale(void) { int i; for (i = 0; i < 8; i++) g_pc[i].fresh = 0; }
+void __wrap_silk_process_NLSFs(silk_encoder_state *psEncC, opus_int16 PredCoef_Q12[2][MAX_LPC_ORDER], opus_int16 pNLSF_Q15[MAX_LPC_ORDER], const opus_int16 prev_NLSFq_Q15[MAX_LPC_ORDER])
+{
+   pc_rec *r; int j, k;
+   __real_silk_process_NLSFs(psEncC, PredCoef_Q12, pNLSF_Q15, prev_NLSFq_Q15);
+   r = pc_slot(psEncC, 1); if (!r) return;
+   r->fresh = 1; r->order = psEncC->predictLPCOrder; r->ip = psEncC->indices.NLSFInterpCoef_Q2;
+   for (j = 0; j < 2; j++) for (k = 0; k < MAX_LPC_ORDER; k++) r->a[j][k] = k < r->order ? PredCoef_Q12[j][k] : 0;
+}
+void __wrap_silk_decode_parameters(silk_decoder_state *psDec, silk_decoder_control *psDecCtrl, opus_int condCoding)
+{
+   pc_rec *r; int j, k;
+   __real_silk_decode_parameters(psDec, psDecCtrl, condCoding);
+   r = pc_slot(psDec, 1); if (!r) return;
+   r->fresh = 1; r->order = psDec->LPC_order; r->ip = psDec->indices.NLSFInterpCoef_Q2;
+   for (j = 0; j < 2; j++) for (k = 0; k < MAX_LPC_ORDER; k++) r->a[j][k] = k < r->order ? psDecCtrl->PredCoef_Q12[j][k] : 0;
+}
+static void wc_pc(const char *key, const void *obj)
+{
+   const pc_rec *r = pc_slot(obj, 0);
+   if (!r || !r->fresh) { printf(",\"%s\":{\"ok\":0,\"ip\":0,\"a0\":[],\"a1\":[]}", key); return; }
+   printf(",\"%s\":{\"ok\":1,\"ip\":%d", key, r->ip); js_arr_i("a0", r->a[0], r->order); js_arr_i("a1", r->a[1], r->order); printf("}");
+}
+
 static void wc_side(const char *key, const SideInfoIndices *ix, int nb, int order, int lag, int lg, const opus_int16 *q)
 {
    int k, gi[MAX_NB_SUBFR], nx[MAX_LPC_ORDER + 1], ltp[MAX_NB_SUBFR], qq[MAX_LPC_ORDER];
@@ -652,6 +693,7 @@ static int exec_wc(const wc_cfg *c, int npk, int from)
    se = (silk_encoder *)((char *)enc + ((int *)enc)[1]);                  /* OpusEncoder.silk_enc_offset */
    sd = (silk_decoder_state *)((char *)dec + ((int *)dec)[1]);            /* OpusDecoder.silk_dec_offset -> channel_state[0] */
    r.s = (uint64_t)c->seed; wc_cfg_arr(c, cfga);
+   pc_clear();
    for (p = 0; p < npk; p++) {
       int len, n;
       for (i = 0; i < N; i++, t++) {
@@ -670,6 +712,7 @@ static int exec_wc(const wc_cfg *c, int npk, int from)
          pcm[i * c->ch] = (opus_int16)(13000 * s);
          if (c->ch == 2) { double s2 = 0.0; for (h = 1; h <= 12 && h * f0 < 0.45 * c->fs; h++) s2 += sin(2 * M_PI * h * ph2) / h; pcm[i * 2 + 1] = (opus_int16)(13000 * (0.5 * s + (c->sig == 2 ? 0.3 * (hx_unit(&r) - 0.5) : 0.25 * (env < 0 ? 0 : env) * s2))); }
       }
+      pc_stale();
       len = opus_encode(enc, pcm, N, pkt, sizeof pkt);
       if (len < 0) { js_open("wc_err"); js_arr_i("cfg", cfga, WC_NCFG); js_int("pk", p); js_int("enc", len); js_close(); break; }
       n = opus_decode(dec, pkt, len, out, N, 0);
@@ -689,6 +732,7 @@ static int exec_wc(const wc_cfg *c, int npk, int from)
          js_int("nf", nfp); js_int("coded", coded); js_int("efs", ec->fs_kHz); js_int("dfs", dc->fs_kHz); js_int("n", ec->nb_subfr); js_int("dn", dc->nb_subfr);
          wc_side("e", &ec->indices, ec->nb_subfr, ec->predictLPCOrder, ec->prevLag, se->state_Fxx[ch].sShape.LastGainIndex, ec->prev_NLSFq_Q15);
          wc_side("d", &dc->indices, ec->nb_subfr, ec->predictLPCOrder, dc->lagPrev, dc->LastGainIndex, dc->prevNLSF_Q15);
+         wc_pc("ea", ec); wc_pc("da", dc);
          js_close();
       }
    }
